@@ -168,13 +168,19 @@ func (f *FragmentBuffer) Pop() (content []byte, epoch uint16) {
 		return nil, 0
 	}
 
-	firstHeader := frags.fragmentByOffset[0].handshakeHeader
+	firstFragment, ok := frags.fragmentByOffset[0]
+	if !ok {
+		// Only possible for a zero-length message whose fragments all sit at a
+		// non-zero offset: nothing to surface.
+		return nil, 0
+	}
+	firstHeader := firstFragment.handshakeHeader
 	firstHeader.FragmentOffset = 0
 	firstHeader.FragmentLength = firstHeader.Length
 
 	rawHeader, _ := firstHeader.Marshal()
 
-	messageEpoch := frags.fragmentByOffset[0].recordLayerHeader.Epoch
+	messageEpoch := firstFragment.recordLayerHeader.Epoch
 
 	f.totalBufferSize -= int(frags.fragmentsLength)
 	f.totalFragmentCount -= len(frags.fragmentByOffset)
